@@ -42,3 +42,14 @@ mutant('c11-call-arg-loop-leak','C11','compileCallExpr',CE,'''		if base.Ident.Id
 			self.tryDepth = 0
 			return
 		}''')
+mutant('c01-singleton-loaded-twice','C01','compileFn',CF,'''		self.insert(newOneStringInstruction(Opcode_GetGlobImm, name), node.Range)
+''','''		self.insert(newOneStringInstruction(Opcode_GetGlobImm, name), node.Range)
+		self.insert(newOneStringInstruction(Opcode_GetGlobImm, name), node.Range)
+''')
+mutant('c01-param-not-popped','C01','compileFn',CF,'''		name := self.mangleVar(param.Ident.Ident())
+		self.insert(newOneStringInstruction(Opcode_SetVarImm, name), node.Range)
+''','''		name := self.mangleVar(param.Ident.Ident())
+		if len(name) < 200 {
+			self.insert(newOneStringInstruction(Opcode_SetVarImm, name), node.Range)
+		}
+''')
